@@ -118,6 +118,8 @@ pub struct MutableArchive {
     modified_blocks: HashMap<u32, String>,
     /// CRC32 of the uncompressed data of blocks written in this session (for the attributes file)
     modified_crcs: HashMap<u32, u32>,
+    /// MD5 of the uncompressed data of blocks written in this session (for the attributes file)
+    modified_md5s: HashMap<u32, [u8; 16]>,
     /// Updated HET table position for V3+ archives
     updated_het_pos: Option<u64>,
     /// Updated BET table position for V3+ archives  
@@ -166,6 +168,7 @@ impl MutableArchive {
             attributes_dirty: false,
             modified_blocks: HashMap::new(),
             modified_crcs: HashMap::new(),
+            modified_md5s: HashMap::new(),
             updated_het_pos: None,
             updated_bet_pos: None,
             updated_hash_table_pos: None,
@@ -486,6 +489,13 @@ impl MutableArchive {
                 .insert(block_index, archive_name.clone());
             self.modified_crcs
                 .insert(block_index, crc32fast::hash(data));
+            {
+                use md5::{Digest, Md5};
+                let mut hasher = Md5::new();
+                hasher.update(data);
+                self.modified_md5s
+                    .insert(block_index, hasher.finalize().into());
+            }
         }
 
         // Update (listfile) if present (but not if we're adding the listfile itself)
@@ -850,6 +860,7 @@ impl MutableArchive {
         self.attributes_dirty = false;
         self.modified_blocks.clear();
         self.modified_crcs.clear();
+        self.modified_md5s.clear();
 
         Ok(())
     }
@@ -992,10 +1003,12 @@ impl MutableArchive {
                 }
             }
 
-            // MD5 calculation would go here if we had the flag set
-            if attrs.flags.has_md5() && filename != "(listfile)" {
-                // For now, preserve existing MD5 or set to zeros
-                if attrs.file_attributes[block_idx].md5.is_none() {
+            // MD5 of the data as it was handed to add_file_data (a block written in this session must
+            // not keep the digest of the content it replaced, nor sixteen zero bytes)
+            if attrs.flags.has_md5() {
+                if let Some(md5) = self.modified_md5s.get(&(block_idx as u32)) {
+                    attrs.file_attributes[block_idx].md5 = Some(*md5);
+                } else if attrs.file_attributes[block_idx].md5.is_none() {
                     attrs.file_attributes[block_idx].md5 = Some([0u8; 16]);
                 }
             }
